@@ -10,7 +10,7 @@ use std::path::Path;
 use std::time::SystemTime;
 use std::{borrow::Cow, io::Write};
 
-use chrono::{format::StrftimeItems, DateTime, Local};
+use chrono::{format::StrftimeItems, DateTime, Local, TimeZone};
 
 use super::{FileType, Matcher, MatcherIO, WalkEntry, WalkError};
 
@@ -45,21 +45,37 @@ impl TimeFormat {
             Self::Ctime => {
                 const CTIME_FORMAT: &str = "%a %b %d %H:%M:%S.%f0 %Y";
 
-                DateTime::<Local>::from(time)
-                    .format(CTIME_FORMAT)
-                    .to_string()
+                local_time(time)?.format(CTIME_FORMAT).to_string()
             }
             Self::Strftime(format) => {
                 // Handle a special case
                 let custom_format = format.replace("%+", "%Y-%m-%d+%H:%M:%S%.f0");
-                DateTime::<Local>::from(time)
-                    .format(&custom_format)
-                    .to_string()
+                local_time(time)?.format(&custom_format).to_string()
             }
         };
 
         Ok(formatted.into())
     }
+}
+
+/// `time` on the local calendar. (`DateTime::from(SystemTime)` panics for the times no
+/// calendar date stands for, which a file system is free to store.)
+fn local_time(time: SystemTime) -> Result<DateTime<Local>, Box<dyn Error>> {
+    let (secs, nanos) = match time.duration_since(SystemTime::UNIX_EPOCH) {
+        Ok(after) => (i64::try_from(after.as_secs())?, after.subsec_nanos()),
+        Err(e) => {
+            let before = e.duration();
+            let secs = -i64::try_from(before.as_secs())?;
+            match before.subsec_nanos() {
+                0 => (secs, 0),
+                nanos => (secs - 1, 1_000_000_000 - nanos),
+            }
+        }
+    };
+    Local
+        .timestamp_opt(secs, nanos)
+        .single()
+        .ok_or_else(|| "the time is outside the range of the calendar".into())
 }
 
 #[derive(Debug, PartialEq, Eq)]
